@@ -5,7 +5,7 @@ import ast
 import re
 
 from ..core import AnalysisError, own_nodes, short, unparse
-from ..rules import defs, dsp, exa, fmt, nul
+from ..rules import defs, dsp, exa, fmt, nul, shape
 from . import common
 
 EXPLANATION = (
@@ -107,6 +107,21 @@ def check_tags(ctx):
               f"the SRT writer emits <{tag}> ({name}) but _TextParser.handle_starttag has no branch for it (accepted: {sorted(accepted)})")
 
 
+def check_time_expressions(ctx):
+  """FIN-timeexpr: begin / end = h*3600 + m*60 + s + ms/1000 from the begin_* / end_* groups."""
+  ix = ctx.ix
+  f = ix.func("ttconv.srt.reader:to_model")
+  for sink, pfx in (("set_begin", "begin"), ("set_end", "end")):
+    calls = [c for c in own_nodes(f.node) if isinstance(c, ast.Call) and isinstance(c.func, ast.Attribute) and c.func.attr == sink]
+    if len(calls) != 1:
+      raise AnalysisError(f"srt reader: expected one {sink} call")
+    rows = shape.eval_time_expr(ix, f, calls[0].args[0], {"h": f"{pfx}_h", "m": f"{pfx}_m", "s": f"{pfx}_s", "ms": f"{pfx}_ms"})
+    wrong = [(s, v, w) for s, v, w in rows if v != w]
+    ctx.check(not wrong, "FIN-timeexpr", f"{f.qualname}|{sink} = h*3600 + m*60 + s + ms/1000 of the {pfx} time", ctx.where(f.module, calls[0]),
+              f"exact on {len(rows)} sample timestamps with decoy values in the other groups",
+              f"the cue {pfx} is not h*3600 + m*60 + s + ms/1000 of the printed {pfx} time: " + "; ".join(f"{s}: got {v}, want {w}" for s, v, w in wrong[:2]))
+
+
 def run(ctx):
   ix = ctx.ix
   fs = common.funcs(ctx, ["ttconv.srt.reader"])
@@ -118,3 +133,6 @@ def run(ctx):
   ctx.floor("NUL-parent", "parent() stores in the SRT text parser", nn, 1)
   check_fmt(ctx)
   check_tags(ctx)
+  check_time_expressions(ctx)
+  shape.check_line_breaks(ctx, ix.func("ttconv.srt.reader:_TextParser.handle_data"))
+  shape.check_span_pairing(ctx, ix.func("ttconv.srt.reader:_TextParser.handle_starttag"), ix.func("ttconv.srt.reader:_TextParser.handle_endtag"))
